@@ -573,6 +573,51 @@ theorem exchange_converges_partial (x : Pair) (now na : Int) (f1 f2 f3 : List Ke
   have h := converges_any (coupled_of_bool hp hc hcoupled hnoroll) now na f1 f2 f3 hf
   exact ⟨h.converged, h.sync_eq⟩
 
+/-- The coupling is established by a child that has a repository and no class yet (first
+delegation), whatever the parent – if its class names for the child translate back. -/
+theorem fresh_child_is_coupled (x : Pair) (hrepo : x.child.ca.hasRepo = true)
+    (hnames : x.mappingInjective = true) (hnone : x.child.ca.classes = []) :
+    x.coupled = true ∧ x.noRollInProgress = true ∧ x.coupledRoll = true ∧
+    x.child.ca.hasPendingRequests x.ph = false := by
+  simp [Pair.coupled, Pair.coupledRoll, Pair.childHasRepo, hrepo, hnames, Pair.noRequestLimits,
+    Pair.classNamesDistinct, Pair.certsOnFile, Pair.noRollInProgress, Pair.stayingCertsOnFile,
+    Pair.keysWellFormed, Pair.keysDistinct, Pair.noParentSideRevocation, Pair.noSuspendedCerts,
+    Pair.othersNotActivating, Ca.hasPendingRequests, hnone]
+
+example : xStart.child.ca.hasRepo = true ∧ xStart.mappingInjective = true ∧ xStart.child.ca.classes = [] := by
+  decide
+
+/-- The cycle of the property text: a converged pair (as reached by `exchange_converges_quiet`),
+then ANY change of the child's entitlement at the parent (`ChildUpdateResources`: more, fewer,
+other resources, or a refused command), then two syncs: converged again, and a fixed point –
+the coupling is re-established by the convergence itself. -/
+theorem exchange_reconverges_after_resources_change (x : Pair) (now na : Int) (f1 f2 g1 g2 : List KeyId)
+    (res : ResSet) (hp : Reachable x.parent) (hc : Reachable x.child)
+    (hcoupled : x.coupled = true) (hnoroll : x.noRollInProgress = true)
+    (hquiet : x.child.ca.hasPendingRequests x.ph = false) (hf : x.newClasses na ≤ f1.length)
+    (hg : ({ x.syncs now na [f1, f2] with
+      parent := (x.syncs now na [f1, f2]).parent.next (.childUpdateResources (x.syncs now na [f1, f2]).ch res) } :
+        Pair).newClasses na ≤ g1.length) :
+    (({ x.syncs now na [f1, f2] with
+      parent := (x.syncs now na [f1, f2]).parent.next (.childUpdateResources (x.syncs now na [f1, f2]).ch res) } :
+        Pair).syncs now na [g1, g2]).converged na = true ∧
+    ∀ f, (({ x.syncs now na [f1, f2] with
+      parent := (x.syncs now na [f1, f2]).parent.next (.childUpdateResources (x.syncs now na [f1, f2]).ch res) } :
+        Pair).syncs now na [g1, g2]).sync now na f =
+      ({ x.syncs now na [f1, f2] with
+        parent := (x.syncs now na [f1, f2]).parent.next (.childUpdateResources (x.syncs now na [f1, f2]).ch res) } :
+          Pair).syncs now na [g1, g2] := by
+  have h := converges_from_quiet (coupled_of_bool hp hc hcoupled hnoroll) now na f1 f2 hquiet hf
+  have h2 := converges_from_quiet (h.coupled_after_resources_change res) now na g1 g2 h.quiet hg
+  exact ⟨h2.converged, h2.sync_eq⟩
+
+/-- Non-vacuity: `xStart` converges, the entitlement shrinks to `{1}`, it converges again with the
+class narrowed (this is `xShrunk`). -/
+example :
+    ({ xStart.syncs 10 900 [[20], []] with
+      parent := (xStart.syncs 10 900 [[20], []]).parent.next (.childUpdateResources 7 [1]) } : Pair) = xShrunk ∧
+    xShrunk.newClasses 900 ≤ ([] : List KeyId).length := by decide
+
 /-! ### Non-vacuity: the witness pairs satisfy the hypotheses -/
 
 theorem xStart_coupled : Coupled xStart :=
